@@ -16,11 +16,11 @@ import (
 
 // TokSpec is one token of a C10 sequence with its trimming.
 type TokSpec struct {
-	Kind  int    `json:"kind"` // 0 Rune '(' 1 Op "==" 2 Word "let" 3 Integer 4 String
-	Text  string `json:"text"`
-	Left  int    `json:"left"`  // -1: no LeftTrim, else the mode
-	Right int    `json:"right"` // -1: no RightTrim, else the mode
-	UseTrim bool `json:"useTrim,omitempty"` // text.Trim(p) (both sides, spaces-and-newlines)
+	Kind    int    `json:"kind"` // 0 Rune '(' 1 Op "==" 2 Word "let" 3 Integer 4 String
+	Text    string `json:"text"`
+	Left    int    `json:"left"`              // -1: no LeftTrim, else the mode
+	Right   int    `json:"right"`             // -1: no RightTrim, else the mode
+	UseTrim bool   `json:"useTrim,omitempty"` // text.Trim(p) (both sides, spaces-and-newlines)
 }
 
 // C10Case: tokens and the whitespace string of every gap (before the first, between, after the last).
@@ -47,19 +47,43 @@ func (c *C10Case) Describe() string {
 	return fmt.Sprintf("source=%q tokens=%s", c.source(), strings.Join(parts, " "))
 }
 
-var wsErrText = map[int]string{0: "whitespaces are not allowed", 1: "new line is not allowed", 3: "was expecting a new line"}
+// wsErrText holds each mode's whitespace error text, learned from the library itself on three
+// probe inputs (so a reworded message is not reported; which mode's error is raised, and where,
+// is what the property fixes).
+var wsErrText = learnWsTexts()
 
-// judgeRun: the whitespace run at d[i:] judged by a mode. lenient is set when the verdict
-// depends on whether a form feed counts as a line break (the property does not say).
+func learnWsTexts() map[int]string {
+	out := map[int]string{0: "whitespaces are not allowed", 1: "new line is not allowed", 3: "was expecting a new line"}
+	defer func() { _ = recover() }()
+	probe := func(mode text.WsMode, in string) string {
+		f := text.NewFile("probe", []byte(in))
+		_, err := text.NewReader(f).SkipWhitespaces(f.Pos(0), mode)
+		if err != nil {
+			return err.Error()
+		}
+		return ""
+	}
+	if t := probe(text.WsNone, " x"); t != "" {
+		out[0] = t
+	}
+	if t := probe(text.WsSpaces, "\nx"); t != "" {
+		out[1] = t
+	}
+	if t := probe(text.WsSpacesForceNl, " x"); t != "" {
+		out[3] = t
+	}
+	return out
+}
+
+// judgeRun: the whitespace run at d[i:] judged by a mode. A form feed counts as a line break,
+// like a line feed: the property names both in one breath and the pinned implementation treats
+// them alike (reader.go: '\n' || '\f'); see DESIGN.md, C10.
 func judgeRun(d []byte, i int, mode int) (end int, ok bool, errOff int, lenient bool) {
 	e := i
-	nl, ff := -1, -1
+	lb := -1
 	for e < len(d) && isWS(d[e]) {
-		if d[e] == '\n' && nl < 0 {
-			nl = e
-		}
-		if d[e] == '\f' && ff < 0 {
-			ff = e
+		if (d[e] == '\n' || d[e] == '\f') && lb < 0 {
+			lb = e
 		}
 		e++
 	}
@@ -67,20 +91,11 @@ func judgeRun(d []byte, i int, mode int) (end int, ok bool, errOff int, lenient 
 	case 0:
 		return e, e == i, i, false
 	case 1:
-		if nl < 0 && ff >= 0 {
-			return e, true, 0, true
-		}
-		if ff >= 0 && ff < nl {
-			return e, false, nl, true // position of "the first line break" depends on the form feed question
-		}
-		return e, nl < 0, nl, false
+		return e, lb < 0, lb, false
 	case 2:
 		return e, true, 0, false
 	default:
-		if nl < 0 && ff >= 0 {
-			return e, false, e, true
-		}
-		return e, nl >= 0, e, false
+		return e, lb >= 0, e, false
 	}
 }
 
